@@ -65,7 +65,12 @@ RtV(a, b) ==
             <<"configure-of-interpret-is-normal-form", T.t2.ok /\ T.t2.tree = a.norm>>,
             <<"encode-of-decode-succeeds " \o T.enc.exc, T.enc.ok>>,
             <<"encoded-text-is-normal-form", b.ok /\ b.tree = a.norm>> >>, 1)
-         IN v
+         IN IF v = Acc THEN v
+            \* F25: an alignment index written with a leading zero comes back without it - and nothing else differs
+            ELSE IF NormAlignments(a.norm) # a.norm /\ T.t2.ok /\ T.t2.tree = NormAlignments(a.norm)
+                    /\ b.ok /\ b.tree = NormAlignments(a.norm)
+                 THEN Known("F25 alignment index written with a leading zero")
+            ELSE v
 
 (* ---------------- kind = "encode" (C03, C05 new top / reconfigure, C06) ---------------- *)
 \* T: g, topreq, model, op ("configure" | "reconfigure"), out: ok, exc, tree, text, re: {ok, tree}, g2: {top, tr}
